@@ -278,7 +278,16 @@ func (s *BadgerStore) addParticipant(p *peers.Peer) error {
 func (s *BadgerStore) SetEvent(event *Event) error {
 	// try to add it to the cache
 	if err := s.inmemStore.SetEvent(event); err != nil {
-		return err
+		// An Event that was evicted from the caches, fetched back from the
+		// database and updated, can no longer be re-inserted in the rolling
+		// participant index (TooLate). That is not an error as long as the
+		// database knows the Event: the update still has to be persisted.
+		if !cm.IsStore(err, cm.TooLate) {
+			return err
+		}
+		if _, dbErr := s.dbGetEvent(event.Hex()); dbErr != nil {
+			return err
+		}
 	}
 
 	// try to add it to the db
